@@ -277,6 +277,11 @@ func checkC11(e *Env) {
 			if !ok[0] || !ok[1] {
 				continue
 			}
+			if want := hx(ref.Seed([]byte(n[0]), []byte(n[1]))); res[i].Out != want {
+				e.Violate(&Violation{What: fmt.Sprintf("within a sequence of calls in one process MnemonicToSeed(%s, %s) = %s, reference %s", preview(op.Str()), preview(op.Pass()), res[i].Out, want),
+					Ops: ops[:i+1], Expected: map[string]string{"out_hex": want}, Observed: res[i], Detail: historyNote})
+				return
+			}
 			key := n[0] + "\x00" + n[1]
 			j, seen := first[key]
 			if !seen {
